@@ -76,16 +76,22 @@ def main(argv):
         tprep = time.time()
         driver.prepare()
         print("  MIR dumps regenerated from /repo and native probe rebuilt in %.0fs" % (time.time() - tprep), flush=True)
-    with cf.ThreadPoolExecutor(max_workers=workers) as ex:
-        futs = {ex.submit(run_ob, ob, tier, seed): ob for ob in obs}
-        for f in cf.as_completed(futs):
-            ob = futs[f]
-            try:
-                r = f.result()
-            except Exception as e:  # engine error
-                r = {"verdict": "inconclusive", "reason": "engine error: %r" % (e,), "wall_s": 0}
-            results[ob["id"]] = r
-            print("  %-34s %-12s %7.1fs  %s" % (ob["id"], r["verdict"], r.get("wall_s", 0), r.get("reason", "")[:150]), flush=True)
+    # memory-heavy obligations (address-space cap above 16 GB) run after the others, two at a time:
+    # the machine has 62 GB and no swap
+    heavy = [ob for ob in obs if ob.get("mem_gb", 12) > 16]
+    for group, nworkers in (([ob for ob in obs if ob not in heavy], workers), (heavy, 2)):
+        if not group:
+            continue
+        with cf.ThreadPoolExecutor(max_workers=nworkers) as ex:
+            futs = {ex.submit(run_ob, ob, tier, seed): ob for ob in group}
+            for f in cf.as_completed(futs):
+                ob = futs[f]
+                try:
+                    r = f.result()
+                except Exception as e:  # engine error
+                    r = {"verdict": "inconclusive", "reason": "engine error: %r" % (e,), "wall_s": 0}
+                results[ob["id"]] = r
+                print("  %-34s %-12s %7.1fs  %s" % (ob["id"], r["verdict"], r.get("wall_s", 0), r.get("reason", "")[:150]), flush=True)
 
     # ---- classify ------------------------------------------------------------------------
     known = findings.load()
